@@ -2,7 +2,6 @@ package types
 
 import (
 	"fmt"
-	"strings"
 
 	"github.com/cosmos/cosmos-sdk/store/types"
 
@@ -118,15 +117,14 @@ func IterateConsensusStateAscending(clientStore sdk.KVStore,
 	defer iterator.Close()
 
 	for ; iterator.Valid(); iterator.Next() {
-		key := iterator.Key()
-		keySplit := strings.Split(string(key), "/")
-		// processed time key in prefix store has format: "consensusStates/<height>"
-		if len(keySplit) != 2 {
+		// consensus state key in prefix store has format: "consensusStates/<height>",
+		// where <height> is 16 binary bytes that may contain '/'
+		revisionNumber, revisionHeight, ok := host.ParseConsensusStateKey(iterator.Key())
+		if !ok {
 			// ignore all not consensus state keys
 			continue
 		}
-		height := GetHeightFromIterationKey(key)
-		if cb(height) {
+		if cb(clienttypes.NewHeight(revisionNumber, revisionHeight)) {
 			return
 		}
 	}
